@@ -15,7 +15,9 @@
 //!   non-minimal long form, `84 FF FF FF FF`}; content := {one octet short,
 //!   empty, one zero octet, all `FF`, first/last octet ±1}; delete; duplicate;
 //!   swap with next sibling; splice in the first node of every other tag
-//!   found in the same object; wrap in `d` levels of constructed nesting.
+//!   found in the same object; wrap in `d` levels of constructed nesting;
+//!   for primitive string-typed nodes the 24 BER "constructed string"
+//!   spellings of [`CONS_VARIANTS`].
 //!
 //! A deviation is *local*: when an operator changes the size of a node, the
 //! length fields of all its ancestors are re-encoded (minimal definite form)
@@ -80,11 +82,98 @@ pub enum Op {
     Nest(u32),
     /// wrap in this many levels of definite-length constructed values of the node's own tag
     NestDef(u32),
+    /// re-encode a primitive string-typed value in the BER "constructed
+    /// string" spelling; the variant number indexes [`CONS_VARIANTS`]
+    Cons(u8),
+}
+
+/// The constructed-string variants: (what, indefinite outer length).
+///
+/// * `Split(k)`: two parts, cut after the first octet (0), in the middle (1),
+///   before the last octet (2);
+/// * the others cut in the middle and then: repeat the last part (more
+///   octets than the original), drop the last octet (fewer), append an extra
+///   part of 1 / 4 / 64 octets, insert an empty part, make the first part a
+///   constructed string of two parts itself (depth 2), give the second part
+///   a wrong tag (INTEGER), or use a single part.
+#[derive(Clone, Copy, Debug, PartialEq, Eq)]
+pub enum ConsKind { Split(u8), DupLast, DropLastOctet, Extra(u8), EmptyPart, Nested, WrongInnerTag, SinglePart }
+
+pub const CONS_VARIANTS: [(ConsKind, bool); 24] = {
+    use ConsKind::*;
+    [
+        (Split(0), false), (Split(0), true), (Split(1), false), (Split(1), true), (Split(2), false), (Split(2), true),
+        (DupLast, false), (DupLast, true), (DropLastOctet, false), (DropLastOctet, true),
+        (Extra(1), false), (Extra(1), true), (Extra(4), false), (Extra(4), true), (Extra(64), false), (Extra(64), true),
+        (EmptyPart, false), (EmptyPart, true), (Nested, false), (Nested, true),
+        (WrongInnerTag, false), (WrongInnerTag, true), (SinglePart, false), (SinglePart, true),
+    ]
+};
+/// Variant numbers used where only representatives are wanted.
+pub const CONS_SPLIT_MID: u8 = 2;
+pub const CONS_DUP_LAST: u8 = 6;
+
+/// Primitive values of a string type: OCTET STRING, BIT STRING, the
+/// restricted character strings and times (universal 12..30), and every
+/// primitive context-tagged value (IMPLICIT strings such as the `[0]`
+/// subjectKeyIdentifier of a SignerInfo).
+pub fn is_string_tag(tag: u8) -> bool {
+    tag & 0x20 == 0 && (matches!(tag, 0x03 | 0x04 | 0x0c | 0x12..=0x1e) || tag & 0xc0 == 0x80)
+}
+
+/// The constructed spelling of a primitive string with `content`.
+pub fn constructed_string(tag: u8, content: &[u8], variant: u8) -> Vec<u8> {
+    let (kind, indef) = CONS_VARIANTS[variant as usize % CONS_VARIANTS.len()];
+    // BIT STRING parts are BIT STRINGs with their own unused-bits octet, all others OCTET STRINGs
+    let bits = tag == 0x03 && !content.is_empty();
+    let (ptag, unused, data) = if bits { (0x03u8, content[0], &content[1..]) } else { (0x04u8, 0u8, content) };
+    let part = |t: u8, chunk: &[u8], last: bool| -> Vec<u8> {
+        let mut c = Vec::with_capacity(chunk.len() + 1);
+        if bits { c.push(if last { unused } else { 0 }) }
+        c.extend_from_slice(chunk);
+        der::tlv(t, &c)
+    };
+    let l = data.len();
+    let mid = l / 2;
+    let mut parts: Vec<Vec<u8>> = Vec::new();
+    match kind {
+        ConsKind::Split(k) => {
+            let p = match k { 0 => 1.min(l), 1 => mid, _ => l.saturating_sub(1) };
+            parts.push(part(ptag, &data[..p], false)); parts.push(part(ptag, &data[p..], true));
+        }
+        ConsKind::DupLast => {
+            parts.push(part(ptag, &data[..mid], false)); parts.push(part(ptag, &data[mid..], false)); parts.push(part(ptag, &data[mid..], true));
+        }
+        ConsKind::DropLastOctet => {
+            parts.push(part(ptag, &data[..mid], false)); parts.push(part(ptag, &data[mid..l.saturating_sub(1).max(mid)], true));
+        }
+        ConsKind::Extra(n) => {
+            parts.push(part(ptag, &data[..mid], false)); parts.push(part(ptag, &data[mid..], false));
+            parts.push(part(ptag, &vec![0x5a; n as usize], true));
+        }
+        ConsKind::EmptyPart => {
+            parts.push(part(ptag, &data[..mid], false)); parts.push(part(ptag, &[], false)); parts.push(part(ptag, &data[mid..], true));
+        }
+        ConsKind::Nested => {
+            let q = mid / 2;
+            let inner = der::cat(&[part(ptag, &data[..q], false), part(ptag, &data[q..mid], false)]);
+            parts.push(der::tlv(ptag | 0x20, &inner)); parts.push(part(ptag, &data[mid..], true));
+        }
+        ConsKind::WrongInnerTag => {
+            parts.push(part(ptag, &data[..mid], false)); parts.push(part(0x02, &data[mid..], true));
+        }
+        ConsKind::SinglePart => parts.push(part(ptag, data, true)),
+    }
+    let body = der::cat(&parts);
+    let mut out = vec![tag | 0x20];
+    if indef { out.push(0x80); out.extend_from_slice(&body); out.extend_from_slice(&[0, 0]) }
+    else { out.extend(der::len_octets(body.len())); out.extend_from_slice(&body) }
+    out
 }
 
 impl Op {
     pub fn is_length_form(self) -> bool {
-        matches!(self, Op::LenIndef | Op::LenNonMin)
+        matches!(self, Op::LenIndef | Op::LenNonMin | Op::Cons(_))
     }
     pub fn is_length(self) -> bool {
         matches!(self, Op::LenDec | Op::LenInc | Op::LenZero | Op::LenIndef | Op::LenIndefNoEoc | Op::LenNonMin | Op::LenHuge)
@@ -116,6 +205,16 @@ impl Op {
             }
             Op::Nest(d) => format!("nest-indef{d}"),
             Op::NestDef(d) => format!("nest-def{d}"),
+            Op::Cons(v) => {
+                let (k, indef) = CONS_VARIANTS[v as usize % CONS_VARIANTS.len()];
+                let k = match k {
+                    ConsKind::Split(0) => "split-after-first".to_string(), ConsKind::Split(1) => "split-mid".into(), ConsKind::Split(_) => "split-before-last".into(),
+                    ConsKind::DupLast => "last-part-twice".into(), ConsKind::DropLastOctet => "last-octet-dropped".into(),
+                    ConsKind::Extra(n) => format!("extra-part{n}"), ConsKind::EmptyPart => "empty-part".into(), ConsKind::Nested => "nested-depth2".into(),
+                    ConsKind::WrongInnerTag => "inner-tag02".into(), ConsKind::SinglePart => "single-part".into(),
+                };
+                format!("constructed:{k}{}", if indef { ":indef" } else { "" })
+            }
         }
     }
 }
@@ -279,6 +378,7 @@ impl Tree {
             v.push(Op::LastDec);
         }
         v.push(Op::OneZero);
+        if is_string_tag(n.tag) { for k in 0..CONS_VARIANTS.len() as u8 { v.push(Op::Cons(k)) } }
         if n.parent.is_some() {
             v.push(Op::Delete);
             v.push(Op::Duplicate);
@@ -309,6 +409,7 @@ impl Tree {
             v.push(Op::LastDec);
         }
         v.push(Op::OneZero);
+        if is_string_tag(n.tag) { v.push(Op::Cons(CONS_SPLIT_MID)); v.push(Op::Cons(CONS_DUP_LAST)) }
         if n.parent.is_some() {
             v.push(Op::Delete);
             v.push(Op::Duplicate);
@@ -402,6 +503,7 @@ impl Tree {
                 plain(n.tag, out);
                 for _ in 0..d { out.extend_from_slice(&[0, 0]) }
             }
+            Some(Op::Cons(v)) => out.extend_from_slice(&constructed_string(n.tag, content, v)),
             Some(Op::NestDef(d)) => {
                 let mut inner = Vec::new();
                 plain(n.tag, &mut inner);
